@@ -22,6 +22,7 @@ package snapstate_test
 //	w.view(name)                         snapshot of recorded state + world for one snap (C10 oracle input)
 //	w.consistency()                      cross-check of snapstate.All against the world model (C11 oracle)
 //	w.mounted / w.current / w.aliases / w.data   the model itself
+//	worldGenReq(t, snap, kinds)          rapid generator of one request (flags, channel, cohort, picks)
 //
 // Locking: callers of the world methods never hold the state lock.
 //
@@ -48,6 +49,7 @@ import (
 	"time"
 
 	"gopkg.in/check.v1"
+	"pgregory.net/rapid"
 
 	"github.com/snapcore/snapd/overlord/configstate/config"
 	"github.com/snapcore/snapd/overlord/snapstate"
@@ -889,3 +891,82 @@ func worldAssumeKnown(id, fp string) bool {
 	}
 	return false
 }
+
+// ---------------------------------------------------------------- request generator (shared)
+
+// worldGenReq draws one request of one of the given kinds for snapName.  Revisions
+// that address kept revisions are drawn as Pick and resolved at run time.
+var worldChannels = []string{"", "", "", "edge", "beta", "latest/candidate", "2.0/stable"}
+var worldCohorts = []string{"", "", "", "cohort-a", "cohort-b"}
+
+func worldGenFlags(t *rapid.T, r *worldReq) {
+	r.Channel = rapid.SampledFrom(worldChannels).Draw(t, "channel")
+	r.Cohort = rapid.SampledFrom(worldCohorts).Draw(t, "cohort")
+	if r.Cohort == "" && rapid.IntRange(0, 7).Draw(t, "leave") == 0 {
+		r.LeaveCohort = true
+	}
+	switch rapid.IntRange(0, 11).Draw(t, "mode") {
+	case 0:
+		r.DevMode = true
+	case 1:
+		r.JailMode = true
+	case 2:
+		r.Classic = true
+	}
+	r.IgnoreValidation = rapid.IntRange(0, 5).Draw(t, "ignval") == 0
+	r.User = rapid.IntRange(0, 2).Draw(t, "user") == 0
+}
+
+func worldGenReq(t *rapid.T, snapName string, kinds []string) worldReq {
+	r := worldReq{Op: rapid.SampledFrom(kinds).Draw(t, "op"), Snap: snapName}
+	switch r.Op {
+	case "install":
+		r.Rev = rapid.IntRange(0, 6).Draw(t, "rev")
+		worldGenFlags(t, &r)
+		r.LeaveCohort = false
+		if r.Cohort != "" {
+			r.Rev = 0 // snapstate refuses revision + cohort
+		}
+	case "refresh":
+		r.Rev = rapid.IntRange(1, 12).Draw(t, "rev")
+		r.ByRev = rapid.IntRange(0, 2).Draw(t, "byrev") == 0
+		worldGenFlags(t, &r)
+		if r.ByRev {
+			r.Cohort = ""
+		}
+	case "refresh-kept":
+		r.Pick = rapid.IntRange(0, 5).Draw(t, "pick")
+		worldGenFlags(t, &r)
+		r.Cohort = ""
+	case "revert":
+		r.NotBlocked = rapid.Bool().Draw(t, "notblocked")
+		worldGenRevertFlags(t, &r)
+	case "revert-to":
+		r.Pick = rapid.IntRange(0, 5).Draw(t, "pick")
+		r.NotBlocked = rapid.Bool().Draw(t, "notblocked")
+		worldGenRevertFlags(t, &r)
+	case "remove-rev":
+		r.Pick = rapid.IntRange(0, 5).Draw(t, "pick")
+	case "remove":
+		r.Purge = rapid.Bool().Draw(t, "purge")
+	case "switch":
+		r.Channel = rapid.SampledFrom([]string{"edge", "beta", "stable", "latest/candidate", "2.0/stable"}).Draw(t, "channel")
+		r.Cohort = rapid.SampledFrom(worldCohorts).Draw(t, "cohort")
+	case "set-config":
+		r.Key = rapid.SampledFrom([]string{"a", "b", "c.d"}).Draw(t, "key")
+		r.Val = rapid.IntRange(0, 4).Draw(t, "val")
+	case "set-retain":
+		r.Retain = rapid.SampledFrom([]int{0, 2, 2, 3, 4, 5}).Draw(t, "retain")
+	}
+	return r
+}
+
+func worldGenRevertFlags(t *rapid.T, r *worldReq) {
+	switch rapid.IntRange(0, 9).Draw(t, "mode") {
+	case 0:
+		r.DevMode = true
+	case 1:
+		r.JailMode = true
+	}
+}
+
